@@ -1,4 +1,6 @@
 """C15 - benchmark evaluation is a pure function of the point."""
+import math
+
 from vlib import core, bench_checks as B, harness as H
 
 
@@ -42,7 +44,16 @@ def run(chk):
     for step in range(steps):
         if not live or rng.random() < 0.12:
             fam, kw = rng.choice(fams)()
-            live.append(((fam, tuple(sorted(kw.items()))), B.problem(fam, **kw)))
+            newpb = B.problem(fam, **kw)
+            live.append(((fam, tuple(sorted(kw.items()))), newpb))
+            if rng.random() < 0.3:      # the FIRST point an instance sees is integer-typed (the origin / a lattice point given as ints) or float32
+                lo0 = [float(v) for v in newpb.lowerBoundOfFloatVariables]; hi0 = [float(v) for v in newpb.upperBoundOfFloatVariables]
+                ip = [int(min(max(0, math.ceil(a)), math.floor(b))) for a, b in zip(lo0, hi0)]
+                if all(a <= t <= b for t, a, b in zip(ip, lo0, hi0)):
+                    try:
+                        newpb.Calculate(Point(np.array(ip) if rng.random() < 0.5 else ip, []), FunctionValue())
+                    except Exception:  # noqa
+                        pass
             if len(live) > 10:
                 live.pop(rng.randrange(len(live)))
         key, pb = rng.choice(live)
@@ -54,6 +65,8 @@ def run(chk):
             y, v0 = rng.choice(pts)
         else:
             y = tuple(a + (b - a) * rng.random() for a, b in zip(lo, hi))
+            if rng.random() < 0.4:      # coordinates written with three decimals
+                y = tuple(min(max(round(t, 3), a), b) for t, a, b in zip(y, lo, hi))
             try:
                 v0 = fresh_value(fam, kw, y)
             except Exception as e:  # noqa
@@ -80,6 +93,19 @@ def run(chk):
                 found += chk.violation('impure', 'StronginC3 constraint %d: Calculate did not return the supplied value holder' % j, {'kind': 'history', 'family': fam, 'args': kw})
             elif not (float(hv.value) == float(ref)):
                 found += chk.violation('impure', 'StronginC3 constraint %d at %r: the supplied holder holds %r, a fresh instance gives %r' % (j, list(y), hv.value, ref), {'kind': 'history', 'family': fam, 'args': kw})
+        if rng.random() < 0.05:      # the problem's own declared optimum, passed as the very Point object the problem publishes
+            ko = pb.knownOptimum[0]
+            kp = [float(t) for t in ko.point.floatVariables]
+            try:
+                v1 = float(pb.Calculate(ko.point, FunctionValue()).value)
+                v2 = float(pb.Calculate(Point(np.array(kp, dtype=np.double), []), FunctionValue()).value)
+            except Exception as e:  # noqa
+                v1 = v2 = None
+            chk.evaluations += 1
+            if [float(t) for t in ko.point.floatVariables] != kp:
+                found += chk.violation('impure', '%s%r: evaluating at the published knownOptimum point changed that point: %r -> %r' % (fam, kw, kp, [float(t) for t in ko.point.floatVariables]), {'kind': 'history', 'family': fam, 'args': kw})
+            elif v1 is not None and not (v1 == v2):
+                found += chk.violation('impure', '%s%r: value at the declared optimum is %r through the published Point object and %r through a copy of it' % (fam, kw, v1, v2), {'kind': 'history', 'family': fam, 'args': kw})
         mode = rng.choice(['fresh-array', 'reused-buffer', 'list'])
         if mode == 'reused-buffer':
             buf = buffers.setdefault(len(y), np.zeros(len(y), dtype=np.double))
